@@ -48,6 +48,16 @@ __all__ = [
 logger = get_module_logger('distributions')
 
 
+def _log(u: float) -> float:
+    """
+    Natural logarithm of a uniform draw u in [0, 1), or of a product of such
+    draws. A stream may deliver exactly 0.0 and a product of uniforms may
+    underflow to 0.0, for which math.log raises a ValueError; the smallest 
+    positive float is used instead, so the draw stays finite.
+    """
+    return math.log(u) if u > 0.0 else math.log(5e-324)
+
+
 class Distribution(ABC):
     """
     The Distribution defines the interface for both discrete and continuous
@@ -525,7 +535,7 @@ class DistErlang(DistContinuous):
             product: float = 1.0
             for _ in range(self._k):
                 product *= self._stream.next_float()
-            return -self._scale * math.log(product)
+            return -self._scale * _log(product)
         return self._dist_gamma.draw()
 
     def _set_stream(self, stream: StreamInterface):
@@ -604,7 +614,7 @@ class DistExponential(DistContinuous):
         """
         Draw a value from the Exponential distribution.
         """
-        return -self._mean * math.log(self._stream.next_float())
+        return -self._mean * _log(self._stream.next_float())
 
     def probability_density(self, x: float) -> float:
         """Returns the probability density value for value x."""
@@ -707,7 +717,7 @@ class DistGamma(DistContinuous):
                 u1: float = self._stream.next_float()
                 u2: float = self._stream.next_float()
                 #  step 2.
-                v = a * math.log(u1 / (1.0 - u1))
+                v = a * _log(u1 / (1.0 - u1))
                 y = self._shape * math.exp(v)
                 z = u1 * u1 * u2
                 w = b + q * v - y
@@ -715,7 +725,7 @@ class DistGamma(DistContinuous):
                 if (w + d - theta * z) >= 0.0:
                     return self._scale * y
                 #  step 4.
-                if w > math.log(z):
+                if w > _log(z):
                     return self._scale * y
                 counter += 1
             logger.info("Gamma distribution -- 1000 tries for alpha>1.0")
@@ -723,7 +733,7 @@ class DistGamma(DistContinuous):
         else:
             #  shape == 1.0
             #  Gamma(1.0, scale) ~ exponential with mean = scale
-            return -self._scale * math.log(self._stream.next_float())
+            return -self._scale * _log(self._stream.next_float())
 
     def probability_density(self, x: float) -> float:
         """Returns the probability density value for value x."""
@@ -797,7 +807,7 @@ class DistGeometric(DistDiscrete):
         first success.
         """
         u = self._stream.next_float()
-        return math.floor(math.log(u) / self._lnp)
+        return math.floor(_log(u) / self._lnp)
 
     def probability(self, observation: int) -> float:
         """Returns the probability of the observation for the distribution."""
@@ -873,7 +883,7 @@ class DistNegBinomial(DistDiscrete):
         x: int = 0
         for _ in range(self._s):
             u = self._stream.next_float()
-            x += math.floor(math.log(u) / self._lnp)
+            x += math.floor(_log(u) / self._lnp)
         return x
 
     def probability(self, observation: int) -> float:
@@ -1748,7 +1758,7 @@ class DistWeibull(DistContinuous):
         """
         Draw a value from the Weibull distribution.
         """
-        return (self._beta * math.pow(-math.log(self._stream.next_float()), 
+        return (self._beta * math.pow(-_log(self._stream.next_float()), 
                                       1.0 / self._alpha))
 
     def probability_density(self, x: float) -> float:
